@@ -140,9 +140,9 @@ func runC47(c *Ctx) {
 	// component that still performs file-system operations while closing.
 	{
 		fl := NewFlow(c.P).
-			After("did:objProvider.Close", MethodOn("Close", "d.objProvider")).
-			After("did:fileCache.Close", MethodOn("Close", "d.fileCache")).
-			After("did:deletePacer.Close", MethodOn("Close", "d.deletePacer")).
+			After("did:objProvider.Close", MethodOn("Close", "recv.objProvider")).
+			After("did:fileCache.Close", MethodOn("Close", "recv.fileCache")).
+			After("did:deletePacer.Close", MethodOn("Close", "recv.deletePacer")).
 			After("did:log.manager.Close", MethodOn("Close", "log.manager")).
 			After("did:versions.close", MethodOn("close", "mu.versions")).
 			After("did:marker.Close", MethodOn("Close", "formatVers.marker"))
